@@ -32,8 +32,70 @@ class CStmtError(Exception):
     pass
 
 
+DEFINE = re.compile(r"^[ \t]*#[ \t]*define[ \t]+(\w+)\(([^)\n]*)\)((?:\\\n|[^\n])*)", re.M)
+
+
+def macro_defs(text: str) -> dict:
+    """function-like macros `#define NAME(a, b) body` of a file: {NAME: ([params], body)}"""
+    out = {}
+    for m in DEFINE.finditer(text):
+        out[m.group(1)] = ([p.strip() for p in m.group(2).split(",") if p.strip()], m.group(3).replace("\\\n", " ").strip())
+    return out
+
+
+def expand_macros(text: str, defs: dict, depth=0) -> str:
+    """`NAME(x, y)` -> the macro's body with its parameters replaced (as the preprocessor does, minus # and ##)"""
+    if not defs or depth > 4:
+        return text
+    pat = re.compile(r"\b(" + "|".join(map(re.escape, defs)) + r")\s*\(")
+    out = []
+    i = 0
+    while True:
+        m = pat.search(text, i)
+        if not m:
+            out.append(text[i:])
+            break
+        ls = text.rfind("\n", 0, m.start()) + 1
+        if text[ls:m.start()].lstrip().startswith("#"):        # the definition itself
+            out.append(text[i:m.end()])
+            i = m.end()
+            continue
+        j, d = m.end(), 1
+        while j < len(text) and d:
+            d += text[j] == "("
+            d -= text[j] == ")"
+            j += 1
+        args, cur, d = [], "", 0
+        for ch in text[m.end():j - 1]:
+            if ch == "," and d == 0:
+                args.append(cur)
+                cur = ""
+            else:
+                d += ch in "([{"
+                d -= ch in ")]}"
+                cur += ch
+        if cur.strip() or args:
+            args.append(cur)
+        params, body = defs[m.group(1)]
+        out.append(text[i:m.start()])
+        if len(args) == len(params):
+            bind = {p_: a.strip() for p_, a in zip(params, args)}
+            sub = re.sub(r"\b(" + "|".join(map(re.escape, params)) + r")\b", lambda mm: bind[mm.group(1)], body) if params else body
+            out.append(" " + expand_macros(sub, {k: v for k, v in defs.items() if k != m.group(1)}, depth + 1) + " ")
+        else:
+            out.append(text[m.start():j])
+        i = j
+    return "".join(out)
+
+
 def tokenize(s: str):
-    s = "\n".join("" if l.lstrip().startswith("#") else l for l in s.split("\n"))
+    lines = []
+    cont = False
+    for l in s.split("\n"):                 # preprocessor lines (with their continuation lines) are not statements
+        drop = cont or l.lstrip().startswith("#")
+        cont = drop and l.rstrip().endswith("\\")
+        lines.append("" if drop else l)
+    s = "\n".join(lines)
     out = []
     i = 0
     while i < len(s):
@@ -130,6 +192,8 @@ class P:
         if x == "throw":
             self.eat()
             return ("throw", self.until((";",)))
+        if x == "switch":
+            return self.switch()
         if x == "try":
             self.eat()
             b = self.stmt()
@@ -143,6 +207,77 @@ class P:
             self.eat()
             return ("expr", [])
         return ("expr", self.until((";",)))
+
+
+def _switch(self):
+    """`switch (E) { case A: case B: S..; break; default: T.. }` is read as the chain `if (E == A || E == B) { S.. } else { T.. }`
+    (cases are disjoint; E is a plain value here).  A case that falls through into the next one is not understood."""
+    self.eat("switch")
+    e = self.paren()
+    self.eat("{")
+    arms = []          # (labels | None for default, [stmts])
+    labels, body, open_ = [], [], False
+    while self.peek() != "}":
+        x = self.peek()
+        if x in ("case", "default"):
+            if open_ and body:
+                if not always_exits(("block", body)):
+                    raise CStmtError("a switch case falls through into the next one")
+                arms.append((labels, body))
+                labels, body = [], []
+            open_ = True
+            self.eat()
+            if x == "case":
+                lab = []
+                while self.peek() != ":" or (self.peek(1) == ":" ):
+                    lab.append(self.eat())
+                labels.append(lab)
+            else:
+                labels.append(None)
+            self.eat(":")
+            continue
+        if not open_:
+            raise CStmtError("statement before the first case of a switch")
+        body.append(self.stmt())
+    self.eat("}")
+    if open_:
+        arms.append((labels, body))
+    chain = None
+    default = None
+    for labs, body in arms:
+        def unbreak(b):      # the `break` that ends the case (possibly inside the case's own braces)
+            if b and b[-1] == ("break",):
+                return b[:-1]
+            if b and b[-1][0] == "block":
+                return b[:-1] + [("block", unbreak(b[-1][1]))]
+            return b
+        body = unbreak(body)
+        if any(st[0] == "break" and not any(g[0] in ("for", "while") for g in c) for b in body for st, c in walk(b)):
+            raise CStmtError("a `break` in the middle of a switch case")
+        if None in labs:
+            default = ("block", body)
+            labs = [l for l in labs if l is not None]
+            if not labs:
+                continue
+        cond = []
+        for l in labs:
+            cond += (["||"] if cond else []) + ["("] + list(e) + [")", "=="] + ["("] + l + [")"]
+        arms_if = ["if", cond, ("block", body), None]
+        if chain is None:
+            chain = first = arms_if
+        else:
+            chain[3] = arms_if
+            chain = arms_if
+    if chain is None:
+        return default or ("block", [])
+    chain[3] = default
+
+    def freeze(a):
+        return ("if", a[1], a[2], freeze(a[3]) if isinstance(a[3], list) else a[3])
+    return freeze(first)
+
+
+P.switch = _switch
 
 
 def parse_body(text: str):
@@ -735,6 +870,29 @@ class Sym:
     def expr(self, name):
         return self.s.get(name, name)
 
+    def pick(self, tokens):
+        """`c ? a : b` with c decided by the concrete values is a (or b)"""
+        if "?" not in tokens:
+            return list(tokens)
+        env = self._env()
+
+        def rec(e):
+            k = e[0]
+            if k == "cond":
+                c = _ev(e[1], env)
+                return rec(e[2] if c else e[3]) if c is not UNK else ("cond", e[1], rec(e[2]), rec(e[3]))
+            if k in ("neg", "not"):
+                return (k, rec(e[1]))
+            if k == "bin":
+                return ("bin", e[1], rec(e[2]), rec(e[3]))
+            if k == "call":
+                return ("call", e[1], [rec(a) for a in e[2]])
+            return e
+        try:
+            return tokenize(calg.unparse(rec(calg.parse(" ".join(tokens)))))
+        except (calg.CParseError, CStmtError):
+            return list(tokens)
+
     def _env(self):
         env = dict(self.c)
         for k, v in self.s.items():
@@ -756,7 +914,7 @@ class Sym:
             new = f"({old}) {op[0]} 1"
             cv = value([nm, op[0], "1"], self._env())
         else:
-            r = self.subst(strip_casts(rhs))
+            r = self.subst(self.pick(strip_casts(rhs)))
             new = r if op == "=" else f"({old}) {op[0]} ({r})"
             cv = value(rhs if op == "=" else [nm, op[0], "("] + list(rhs) + [")"], self._env())
         if any(IDENT.match(x) and j + 1 < len(rhs or []) and rhs[j + 1] == "(" and x not in ("log10", "log", "pow", "exp", "sqrt", "fabs", "abs", "min", "max", "fmin", "fmax")
@@ -852,6 +1010,8 @@ def same_value(a: str, b: str):
     if OPAQUE in a or OPAQUE in b:
         return None
     try:
-        return calg.canon_str(a).equiv(calg.canon_str(b))
+        same = calg.canon_str(a).equiv(calg.canon_str(b))
     except calg.CParseError:
         return None
+    # an undecided `c ? x : y` is a value this comparison cannot speak about
+    return True if same else (None if "?" in a or "?" in b else False)
